@@ -8,7 +8,7 @@
 //! job file: first line = command, rest = payload
 //!   build                       payload = assembler source           -> build_str
 //!   buildfile <main> [inc..]    payload ignored                      -> build_file(main, {inc..})
-//!   hex <code|eeprom>           payload = hex string of image bytes  -> write_*_hex to a temp file, returns its text
+//!   hex <code|eeprom> [prior]   (prior: what the output path already holds: long (default) | none | empty | prefix | same) payload = hex string of image bytes  -> write_*_hex to a temp file, returns its text
 //!   tree <main> [inc..]         payload = files, each introduced by a line `@@ <relative path>`; `@ROOT@` in a file stands for
 //!                               the directory they are written to -> fresh directory, made the working directory,
 //!                               build_file(main, {inc..}), directory removed
@@ -134,8 +134,26 @@ fn run_job(text: &str, scratch: &PathBuf) -> String {
                 messages: vec![],
             };
             let out = scratch.join("out.hex");
-            // the path already holds a (longer) file, as after an earlier, larger build: the writer has to replace it, not overwrite its head
-            fs::write(&out, ":10000000".repeat(40_000)).unwrap();
+            let _ = fs::remove_file(&out);
+            // what the output path holds already: by default a (longer) file, as after an earlier, larger build -- the writer has to replace
+            // it, not overwrite its head; `none`, `empty`, `prefix` (the first two lines of this very output), `same` (this very output)
+            match words.next().unwrap_or("long") {
+                "none" => {}
+                "empty" => fs::write(&out, "").unwrap(),
+                p @ ("prefix" | "same") => {
+                    let first = scratch.join("first.hex");
+                    let _ = fs::remove_file(&first);
+                    let _ = if which == "code" { write_code_hex(first.clone(), &br) } else { write_eeprom_hex(first.clone(), &br) };
+                    let text = fs::read_to_string(&first).unwrap_or_default();
+                    if p == "same" {
+                        fs::write(&out, &text).unwrap();
+                    } else {
+                        let head: Vec<&str> = text.split_inclusive('\n').take(2).collect();
+                        fs::write(&out, head.concat()).unwrap();
+                    }
+                }
+                _ => fs::write(&out, ":10000000".repeat(40_000)).unwrap(),
+            }
             let r = if which == "code" {
                 write_code_hex(out.clone(), &br)
             } else {
